@@ -31,7 +31,7 @@ VARIABLES cid, fs, k, ok, cut,
 VARIABLE shown         \* the runs expected in the observation of the last step (for the REJECT line)
 tvars == <<vars, cid, fs, k, ok, cut, carry, shown>>
 
-DeclOf(j) == [st |-> ToSet(j.st), ev |-> ToSet(j.ev), tt |-> ToSet(j.tt), svc |-> ToSet(j.svc), resp |-> j.resp, sf |-> j.sf, alt |-> j.alt]
+DeclOf(j) == [st |-> ToSet(j.st), ev |-> ToSet(j.ev), tt |-> ToSet(j.tt), svc |-> ToSet(j.svc), resp |-> j.resp, sf |-> j.sf, alt |-> j.alt, dup |-> ToSet(j.dup)]
 DefsOf(q) == [i \in 1..Len(q) |-> [n |-> q[i].n, d |-> DeclOf(q[i].d)]]
 
 TInit == /\ cid \in 1..Len(Cases) /\ fs \in 1..Len(FlagSeqs) /\ k = 0 /\ ok = TRUE /\ cut = 0 /\ carry = {} /\ shown = {}
